@@ -110,6 +110,27 @@ m("dir-no-fallback-on-notfound", "src/dir.rs", "                    Err(ref e) i
 m("dir-vary-tied-to-gzipped", "src/dir.rs", "        if self.auto_gzip {\n            hdrs.insert(header::VARY", "        if self.auto_gzip && self.is_gzipped {\n            hdrs.insert(header::VARY", ["C19"])
 m("dir-absolute-allowed-if-double-slash", "src/dir.rs", "    if path.as_bytes().first() == Some(&b'/') {", "    if path.as_bytes().first() == Some(&b'/') && path.as_bytes().get(1) != Some(&b'/') {", ["C19"])
 
+# ---- second round: narrower variants of mutants that the repository's own tests kill
+m("content-range-end-exclusive-large-offsets", "src/serving.rs", "                        range.start,\n                        range.end - 1,\n                        len\n                    ),", "                        range.start,\n                        if range.start > u32::MAX as u64 { range.end } else { range.end - 1 },\n                        len\n                    ),", ["C02", "C03"])
+m("exactlen-short-by-one-is-clean-end", "src/body.rs", "                if this.remaining != 0 {", "                if this.remaining > 1 {", ["C07"])
+m("exactlen-long-by-one-passed-on", "src/body.rs", "                if let Some(new_rem) = new_rem {", "                let new_rem = if new_rem.is_none() && d_len == this.remaining + 1 { Some(0) } else { new_rem };\n                if let Some(new_rem) = new_rem {", ["C07", "C01"])
+m("multipart-trailer-not-counted-3-parts", "src/serving.rs", "        .checked_add(crate::as_u64(PART_TRAILER.len()))", "        .checked_add(if ranges.len() == 3 { 0 } else { crate::as_u64(PART_TRAILER.len()) })", ["C01", "C06"])
+m("multipart-threshold-quarter-big-entities", "src/serving.rs", "if matches!(est_len, Some(l) if l < len) {", "if matches!(est_len, Some(l) if l < if len > 100_000 { len / 4 } else { len }) {", ["C03"])
+m("if-range-weak-compare-when-both-weak", "src/serving.rs", "if etag::strong_eq(if_range, some_etag.as_bytes()) {", "if etag::strong_eq(if_range, some_etag.as_bytes()) || (if_range.starts_with(b\"W/\") && if_range == some_etag.as_bytes()) {", ["C05"])
+m("if-range-date-honoured-when-equal", "src/serving.rs", "                // The resource could have changed twice in the supplied second, so never match.\n                range_hdr = None;\n                true", "                // The resource could have changed twice in the supplied second, so never match.\n                let same = std::str::from_utf8(if_range).ok().and_then(|s| parse_http_date(s).ok()).map_or(false, |d| Some(d) > last_modified);\n                if !same {\n                    range_hdr = None;\n                }\n                !same", ["C05"])
+m("inm-strong-compare-for-multi-tag-lists", "src/etag.rs", "if none_match && weak_eq(item, some_etag.as_bytes()) {", "if none_match && (weak_eq(item, some_etag.as_bytes()) && (m.len() < 20 || strong_eq(item, some_etag.as_bytes()))) {", ["C04"])
+m("etag-list-tab-separator-corrupt", "src/etag.rs", "            while let [b' ' | b'\\t', tail @ ..] = rem {", "            while let [b' ', tail @ ..] = rem {", ["C04"])
+m("no-wake-on-drop-with-buffered-data", "src/chunker.rs", "            *writer_dropped = dropping;\n            l.waker.take()", "            *writer_dropped = dropping;\n            if dropping && ready.len() > 1 { None } else { l.waker.take() }", ["C10"])
+m("write-reports-full-len-when-one-over", "src/chunker.rs", "        Ok(bytes)\n    }\n\n    fn flush(&mut self)", "        Ok(if full && buf.len() == bytes + 1 && bytes > 1 { buf.len() } else { bytes })\n    }\n\n    fn flush(&mut self)", ["C08"])
+m("queue-lifo-when-three", "src/chunker.rs", "                ready.push_back(full_buf);", "                if ready.len() == 2 { ready.push_front(full_buf) } else { ready.push_back(full_buf) }", ["C08", "C10"])
+m("should-gzip-gt-when-star", "src/lib.rs", "    gzip_q > 0 && gzip_q >= identity_q", "    gzip_q > 0 && (gzip_q > identity_q || (star_q.is_none() && gzip_q == identity_q))", ["C16"])
+m("qvalue-three-decimals-scale", "src/lib.rs", "        3 /* 0.xxx */ => 1,", "        3 /* 0.xxx */ => if v.starts_with(\"00\") { 10 } else { 1 },", ["C16"])
+m("gzip-flush-skipped-before-any-output", "src/gzip.rs", "            Inner::Gzipped(ref mut w) => w.flush(),", "            Inner::Gzipped(ref mut w) => if w.get_ref().buffered() == 0 && w.total_in() < 8 { Ok(()) } else { w.flush() },", ["C09"])
+m("file-chunk-not-clamped-near-boundary", "src/file.rs", "                let chunk_size = std::cmp::min(CHUNK_SIZE, left.end - left.start) as usize;", "                let chunk_size = if left.start % CHUNK_SIZE == CHUNK_SIZE - 1 { CHUNK_SIZE as usize } else { std::cmp::min(CHUNK_SIZE, left.end - left.start) as usize };", ["C18"])
+m("file-eof-on-boundary-ends-clean", "src/file.rs", "                        Err(e) => (\n                            Err(Box::<dyn StdError + Send + Sync + 'static>::from(e).into()),\n                            (left, inner),\n                        ),", "                        Err(e) if e.kind() == io::ErrorKind::UnexpectedEof && left.start > 0 && left.start % CHUNK_SIZE == 0 => {\n                            return None;\n                        }\n                        Err(e) => (\n                            Err(Box::<dyn StdError + Send + Sync + 'static>::from(e).into()),\n                            (left, inner),\n                        ),", ["C18"])
+m("head-get-range-for-multipart", "src/serving.rs", "                    if method == Method::HEAD {\n                        return ServeInner::Simple(res.body(Body::empty()).unwrap());\n                    }", "                    if method == Method::HEAD {\n                        drop(ent.get_range(ranges[0].clone()));\n                        return ServeInner::Simple(res.body(Body::empty()).unwrap());\n                    }", ["C15"])
+m("multipart-fuse-skipped-for-last-part", "src/serving.rs", "                        this.cur = None;\n                        this.remaining = 0;", "                        if this.state >> 1 != this.ranges.len() - 1 {\n                            this.cur = None;\n                        }\n                        this.remaining = 0;", ["C20", "C12"])
+
 def sh(cmd, cwd=None, timeout=None, env=None):
     e = dict(os.environ); e["CARGO_NET_OFFLINE"] = "true"
     if env: e.update(env)
@@ -170,7 +191,7 @@ def main():
         if not tests_ok:
             results[name] = {"status": "invalid: repo tests fail / hang / do not compile", "detail": out[-300:], "rc": rc}
             print(name, "INVALID (repo tests)", rc, out[-200:].replace("\n", " | ")); continue
-        rc, out = sh("cargo build --release --offline 2>&1 | grep -E '^error' -A6", cwd=HARN, timeout=900)
+        rc, out = sh("(cargo build --release --offline && cargo build --profile unchecked --offline) 2>&1 | grep -E '^error' -A6", cwd=HARN, timeout=1200)
         if not os.path.exists(f"{HARN}/target/release/vp") or "error" in out:
             results[name] = {"status": "invalid: harness does not build", "detail": out[-400:]}
             print(name, "INVALID (harness build)", out[-300:]); continue
